@@ -18,12 +18,62 @@ type documentXML struct {
 }
 
 // bodyXML represents the document body.
-// Note: Paragraphs and Tables are collected separately by xml.Unmarshal.
+// Note: Paragraphs and Tables are collected separately by UnmarshalXML.
 // Use Elements for ordered access (populated by custom parsing).
 type bodyXML struct {
 	Paragraphs []paragraphXML `xml:"p"`
 	Tables     []tableXML     `xml:"tbl"`
 	Elements   []bodyElement  `xml:"-"` // Populated manually to preserve order
+}
+
+// isBodyContainer reports whether a child element of the body only groups
+// block-level content: the paragraphs and tables inside a content control
+// (<w:sdt>/<w:sdtContent>) or a custom XML block belong to the body.
+func isBodyContainer(local string) bool {
+	switch local {
+	case "sdt", "sdtContent", "customXml":
+		return true
+	}
+	return false
+}
+
+// UnmarshalXML decodes the body, collecting its paragraphs and tables in
+// document order, including those grouped by block-level containers.
+func (b *bodyXML) UnmarshalXML(d *xml.Decoder, start xml.StartElement) error {
+	depth := 0
+	for {
+		tok, err := d.Token()
+		if err != nil {
+			return err
+		}
+		switch el := tok.(type) {
+		case xml.StartElement:
+			switch {
+			case el.Name.Local == "p":
+				var p paragraphXML
+				if err = d.DecodeElement(&p, &el); err == nil {
+					b.Paragraphs = append(b.Paragraphs, p)
+				}
+			case el.Name.Local == "tbl":
+				var t tableXML
+				if err = d.DecodeElement(&t, &el); err == nil {
+					b.Tables = append(b.Tables, t)
+				}
+			case isBodyContainer(el.Name.Local):
+				depth++
+			default:
+				err = d.Skip()
+			}
+			if err != nil {
+				return err
+			}
+		case xml.EndElement:
+			if depth == 0 {
+				return nil
+			}
+			depth--
+		}
+	}
 }
 
 // bodyElement represents an element in the document body (paragraph or table).
